@@ -86,6 +86,21 @@ FACTS = {
         ('no_siblings_for_attributes', 'elementpath/xpath_context.py', 'XPathContext.iter_siblings', 'has', 'if item.parent is not None and (not isinstance(item, (AttributeNode, NamespaceNode))):'),
         ('reverse_axis_positions', 'elementpath/xpath_tokens/axes.py', 'XPathAxis.select_with_focus', 'order', 'if self.reverse_axis: ;; context.size = context.position = len(results) ;; for context.item in results: ;; yield context.item ;; context.position -= 1'),
     ],
+    'C15': [
+        ('same_key_strings_both_ways', 'elementpath/compare.py', 'same_key', 'order', 'if isinstance(k1, (str, AnyURI, UntypedAtomic)): ;; if not isinstance(k2, (str, AnyURI, UntypedAtomic)): ;; return False ;; return str(k1) == str(k2) ;; elif isinstance(k2, (str, AnyURI, UntypedAtomic)): ;; return False'),
+        ('same_key_nan', 'elementpath/compare.py', 'same_key', 'order', 'elif isinstance(k1, float) and math.isnan(k1): ;; return isinstance(k2, float) and math.isnan(k2)'),
+        ('same_key_qname', 'elementpath/compare.py', 'same_key', 'order', 'elif isinstance(k1, AbstractQName) ^ isinstance(k2, AbstractQName): ;; return False'),
+        ('same_key_binary_types', 'elementpath/compare.py', 'same_key', 'order', 'elif isinstance(k1, AbstractBinary) and isinstance(k2, AbstractBinary) and (type(k1) is not type(k2)): ;; return False'),
+        ('same_key_timezone', 'elementpath/compare.py', 'same_key', 'order', 'elif isinstance(k1, AbstractDateTime) and isinstance(k2, AbstractDateTime) and (k1.tzinfo is None) ^ (k2.tzinfo is None): ;; return False'),
+        ('same_key_python_eq_last', 'elementpath/compare.py', 'same_key', 'order', 'try: ;; return True if k1 == k2 else False ;; except TypeError: ;; return False'),
+        ('datetime_eq_same_type', 'elementpath/datatypes/datetime.py', 'AbstractDateTime._compare', 'order', 'if op is operator.eq and (not isinstance(other, type(self))) and (not isinstance(self, type(other))): ;; return False'),
+        ('put_by_same_key', 'elementpath/xpath31/_xpath31_functions.py', 'evaluate__map_put', 'order', 'items = {k: v for k, v in map_.items(context) if not same_key(k, key)} ;; items[key] = value'),
+        ('remove_by_same_key', 'elementpath/xpath31/_xpath31_functions.py', 'evaluate__map_remove', 'has', 'if not any((same_key(k, x) for x in keys))'),
+        ('contains_by_same_key', 'elementpath/xpath31/_xpath31_functions.py', 'evaluate__map_contains', 'has', 'return any((same_key(k, key) for k in map_.keys(context)))'),
+        ('merge_combine_concatenates', 'elementpath/xpath31/_xpath31_functions.py', 'evaluate__map_merge', 'has', '*(v if isinstance(v, list) else [v])]'),
+        ('merge_use_last_moves_to_end', 'elementpath/xpath31/_xpath31_functions.py', 'evaluate__map_merge', 'order', "elif duplicates == 'use-last': ;; items.pop(k1) ;; items[k1] = v"),
+        ('merge_reject', 'elementpath/xpath31/_xpath31_functions.py', 'evaluate__map_merge', 'order', "elif duplicates == 'reject': ;; raise self.error('FOJS0003')"),
+    ],
     'C09': [
         ('normalize_space_xml_whitespace', 'elementpath/xpath1/_xpath1_functions.py', 'evaluate__normalize_space', 'has', "return ' '.join((x for x in re.split('[ \\t\\n\\r]+', arg) if x))"),
         ('normalize_space_no_unicode_split', 'elementpath/xpath1/_xpath1_functions.py', 'evaluate__normalize_space', 'lacks', '.split()'),
